@@ -10,6 +10,7 @@ import (
 	"encoding/json"
 	"errors"
 	"fmt"
+	"math"
 	"os"
 	"sort"
 	"strconv"
@@ -38,6 +39,7 @@ type Case struct {
 	Name       bool      `json:"name"`        // cache: WithName
 	ForceLimit bool      `json:"force_limit"` // cache: pass WithLimit even when the limit is 0
 	Twin       bool      `json:"twin"`        // a second instance of the same kind is driven alongside
+	Wrap       int       `json:"wrap"`        // cache kinds: values are 1 = slices, 2 = maps (uncomparable), 3 = structs holding a NaN (not equal to themselves)
 	Obj        string    `json:"obj"`         // lin: which structure
 	Pre        [][]any   `json:"pre"`         // lin: sequential prefix (results not recorded)
 	Threads    [][][]any `json:"threads"`     // lin: one script per goroutine
@@ -102,18 +104,49 @@ func readCases() []Case {
 // Sentinel data: the number 0 of a case stands for Go's nil (as a value, an element, a SafeMap
 // key) - a legal value that sloppy code confuses with "absent"; presence is always reported by
 // the ok / found result, never by comparing with nil.
+//
+// wrapMode (cache kinds only): the cache stores values of type any and never needs to compare
+// them; legal values that cannot be compared with == (slices, maps: comparing panics) or are
+// not equal to themselves (NaN) stand for the number they carry.
+var wrapMode atomic.Int32 // (real-time cases run concurrently and may see another case's mode: unval reads every shape)
+
+type nanBox struct {
+	f float64
+	n int64
+}
+
 func val(v any) any {
-	if n := num(v); n != 0 {
-		return n
+	n := num(v)
+	if n == 0 {
+		return nil
 	}
-	return nil
+	switch wrapMode.Load() {
+	case 1:
+		return []int64{n}
+	case 2:
+		return map[int64]bool{n: true}
+	case 3:
+		return nanBox{math.NaN(), n}
+	}
+	return n
 }
 
 func unval(v any) int64 {
-	if v == nil {
+	switch x := v.(type) {
+	case nil:
 		return 0
+	case int64:
+		return x
+	case []int64:
+		return x[0]
+	case map[int64]bool:
+		for k := range x {
+			return k
+		}
+	case nanBox:
+		return x.n
 	}
-	return v.(int64)
+	return -424245
 }
 
 // a stepper applies one operation to one object and returns its observation (nil = none)
@@ -1232,6 +1265,10 @@ func runCase(c Case) (out Out) {
 			out.Err = fmt.Sprintf("panic: %v", r)
 		}
 	}()
+	wrapMode.Store(0)
+	if c.Kind == "cache" || c.Kind == "cachew" || c.Kind == "cache_take2" {
+		wrapMode.Store(int32(c.Wrap))
+	}
 	switch c.Kind {
 	case "window", "safemap", "queue", "ring", "set":
 		runSeq(c, &out)
